@@ -1,3 +1,4 @@
+import Cactus.Lemmas.LocalContract
 import Cactus.Lemmas.Basic
 import Cactus.Lemmas.Table
 /-!
@@ -42,5 +43,24 @@ theorem C13_partial_purge_removes_target (x : Nat) (t : Table) (hw : t.WF) (n : 
   constructor
   · rw [Table.get_remove _ hw1]; simp [Table.get_remove _ hw]
   · rw [Table.get_remove _ hw1]; simp [Table.get_remove _ hw]
+
+
+/-! ## What remains true: a stale record is dangerous only inside a collected group
+
+`State.Stale s a b`: owner `a` is live and records more adoptions of `b` than its value holds
+handles to `b` — exactly what an elided `unadopt` leaves behind.  `C13_partial`: every user-level
+action and every machine step other than a *passing group teardown* preserves the safety invariant
+with no contract at all, and a group teardown preserves it as soon as no stale pair has **both**
+its owner and its target inside the group being collected.  So forgetting `unadopt` can endanger a
+live object only through a record whose owner and target are both members of a group that passes
+the orphan test (the D4 witness above is the smallest such case: a↔b); a stale record whose owner
+or target stays outside every collected group can at most keep garbage alive — the documented
+"may leak".  In particular the repository's own `leak_with_elided_unadopt` shape (the removed handle
+was the target's last one, so the target dies and purges the record) is covered. -/
+
+theorem C13_partial : type_of% @stale_record_harmless_outside_group := @stale_record_harmless_outside_group
+theorem C13_partial_actions_need_no_contract : type_of% @applyAct_invS := @applyAct_invS
+theorem C13_contract_is_absence_of_stale_records (s : State) : s.P ↔ ∀ a b, ¬ s.Stale a b :=
+  P_iff_no_stale s
 
 end Cactus
